@@ -339,6 +339,18 @@ def check_map(ctx, Canon, aliases, preferred, rng, steps):
         if not frames_equal(df, plain, cols):
             ctx.violation('alias-export-data', 'aliased export changes data', case)
             return
+        if flags.get('status') is False and flags.get('iterations') is False:
+            # the exported table, alias-named columns and all, builds the same model again: from_dataframe hands the columns to the
+            # constructor as keywords, and a constructor keyword through an alias is the keyword of the underlying variable
+            r3 = do(lambda: type(m).from_dataframe(df))
+            ctx.count('alias_named_tables_imported')
+            if r3[0] != 'ret':
+                ctx.violation('alias-constructor-keyword', f'from_dataframe() of the aliased export (columns {cols}) raised {r3[1]}', case)
+                return
+            bad = [v for v in VARS if not np.array_equal(np.asarray(r3[1][v]), np.asarray(twin[v]), equal_nan=True)]
+            if bad:
+                ctx.violation('alias-constructor-keyword', f'from_dataframe() of the aliased export (columns {cols}): {bad} come back as {[r3[1][v].tolist() for v in bad]}, the model holds {[twin[v].tolist() for v in bad]}', case)
+                return
 
 
 def frames_equal(df, plain, cols):
